@@ -106,7 +106,16 @@ func c04Run(w *verifrt.World, tier Tier) *RunResult {
 	cfg.Lines = append(cfg.Lines, "SecDataset ds1 `\nevil\nfoo\n`")
 	dump := cfg.DumpTX
 	cfg.DumpTX = false
-	text := cfg.Text() + strings.Join(c06Special(t), "\n") + "\n"
+	// a quarter of the runs: a ctl action that only the unrelated request between
+	// the repetitions triggers (it carries X-Pred) - what that request changed for
+	// itself must be gone when the recycled object serves the request again
+	trigger := ""
+	if t.Draw(4) == 0 {
+		trigger = fmt.Sprintf("SecRule REQUEST_HEADERS:X-Pred \"@streq 1\" \"id:9970,phase:1,pass,nolog,ctl:%s\"\n", pick(t, []string{
+			"requestBodyLimit=5", "requestBodyLimit=3", "responseBodyLimit=4", "requestBodyAccess=Off", "ruleEngine=Off", "ruleEngine=DetectionOnly",
+			"forceRequestBodyVariable=On", "requestBodyProcessor=JSON", "ruleRemoveById=101-104", "ruleRemoveByTag=t1", "ruleRemoveTargetById=101;ARGS", "ruleRemoveTargetById=102;ARGS_GET"}))
+	}
+	text := cfg.Text() + trigger + strings.Join(c06Special(t), "\n") + "\n"
 	if dump {
 		text += fmt.Sprintf("SecRule TX \"@unconditionalMatch\" \"id:%d,phase:5,pass,nolog\"\n", dumpRuleID)
 	}
@@ -150,6 +159,10 @@ func c04Run(w *verifrt.World, tier Tier) *RunResult {
 	long, _ := buildWAF(text) // long-lived instance, object recycled through the pool
 	defer long.Close()
 	warm := genScript(verifrt.NewTape("warm", w.Seed), &reqOpts{Body: true, MaxArgs: 4}, "warm")
+	if trigger != "" {
+		warm.Headers = append(warm.Headers, Header{"X-Pred", "1"})
+		res.count("warm_request_with_ctl", 1)
+	}
 	ordersBefore := w.MapOrders
 	for i := 0; i < reps; i++ {
 		pol := verifrt.MapRotate
